@@ -159,7 +159,7 @@ func propC06(w *World, r *Report) {
 	checkThrottleStartFailureSurfaces(w, r, runs, "X3")
 	checkThrottlePassThrough(w, r, runs, "X4")
 	checkSettingsImmutable(w, r, "X2", "RecorderConfig:MinSecs", "ThermalRecorder:MinSecs", "Config:Recorder") // min-secs as configured
-	checkBucketConstruction(w, r, c, "X2") // Available() >= minimum clip presumes the continuously refilled bucket
+	checkBucketConstruction(w, r, c, "X2")                                                                     // Available() >= minimum clip presumes the continuously refilled bucket
 }
 
 // checkThrottleStartFailureSurfaces: whenever the wrapped recorder refuses to start a file inside a throttler call, that
